@@ -194,7 +194,7 @@ def moving_ok(c, w):
     return S.And(w >= 2, S.slen(c) >= 2, S.forall_idx(c, lambda j: S.And(S.at(c, j) >= 1, S.at(c, j) <= w - 1)), S.ssum(c) >= w)
 
 
-@contract(f"{SW}::supports_native_moving_window", spec="ints", props=["C19"])
+@contract(f"{SW}::supports_native_moving_window", spec="ints", props=["C19", "C26"])
 class supports_native_moving_window:
     """the guard of the native trailing-window path: True only when window >= 2, at least two chunks, every chunk positive
     and smaller than the window, and the axis holds a full window"""
@@ -213,7 +213,7 @@ class supports_native_moving_window:
                 yield {"chunks": c, "window": w}
 
 
-@contract(f"{SW}::MovingWindowReduction._block_plan", spec="r1", props=["C19", "C03"])
+@contract(f"{SW}::MovingWindowReduction._block_plan", spec="r1", props=["C19", "C03", "C26"])
 class mwr_block_plan:
     """the banded plan of the trailing-window reduction.  Row q is (start_q, size_q, ...): the first block has no band;
     for every later block the left edge of its first window, max(0, start_q - window + 1), lies in band block g and that
